@@ -440,13 +440,91 @@ def vdef_coq(pars, xy, python):
 
 
 # ---------------------------------------------------------------- main
+class Untranslatable(Exception):
+    pass
+
+
+_FN = {"form_volume": "FormVolume", "shell_volume": "ShellVolume", "Iq": "FIq", "Iqxy": "FIqxy", "Iqac": "FIqac", "Iqabc": "FIqabc"}
+_SIG = {"base_table.form_volume_parameters": "SVolume", "[q] + base_table.iq_parameters": "SIq",
+        "[qx, qy] + base_table.iq_parameters + base_table.orientation_parameters": "SIqxy",
+        "[qab, qc] + base_table.iq_parameters": "SIqac", "[qa, qb, qc] + base_table.iq_parameters": "SIqabc"}
+
+
+def _translate_wrappers():
+    """Which C wrapper functions generate.make_source writes for the functions a definition gives as inline strings,
+    under which conditions and with which parameter list: the `if isinstance(model_info.X, str):` statements read
+    with their nesting.  Returns a Coq term of type list (fn * sig) in [inl : fn -> bool]."""
+    import ast
+    tree = ast.parse(open(os.path.join(common.REPO, "sasmodels", "generate.py")).read())
+    fn = [f for f in tree.body if isinstance(f, ast.FunctionDef) and f.name == "make_source"]
+    if len(fn) != 1:
+        raise Untranslatable("make_source not found")
+    count = [0]
+
+    def test_name(t):
+        if isinstance(t, ast.Call) and ast.unparse(t.func) == "isinstance" and len(t.args) == 2 and ast.unparse(t.args[1]) == "str" \
+                and isinstance(t.args[0], ast.Attribute) and ast.unparse(t.args[0].value) == "model_info" and t.args[0].attr in _FN:
+            return _FN[t.args[0].attr]
+        return None
+
+    def mentions(node):
+        return any(isinstance(n, ast.Name) and n.id == "_gen_fn" for n in ast.walk(node))
+
+    def block(stmts, pars):
+        out = []
+        for st in stmts:
+            if isinstance(st, ast.If) and test_name(st.test):
+                out.append("(if inl %s then %s else %s)" % (test_name(st.test), block(st.body, pars), block(st.orelse, pars)))
+                if any(isinstance(n, ast.Name) and n.id == "pars" and isinstance(n.ctx, ast.Store) for n in ast.walk(st)):
+                    pars = None        # assigned under a condition: unknown afterwards
+            elif isinstance(st, ast.Assign) and [ast.unparse(t) for t in st.targets] == ["pars"]:
+                pars = _SIG.get(ast.unparse(st.value))
+                if mentions(st.value):
+                    raise Untranslatable("pars = %s" % ast.unparse(st.value))
+            elif isinstance(st, ast.Expr) and isinstance(st.value, ast.Call) and ast.unparse(st.value.func) == "source.append" and len(st.value.args) == 1 \
+                    and isinstance(st.value.args[0], ast.Call) and ast.unparse(st.value.args[0].func) == "_gen_fn":
+                a = st.value.args[0].args
+                if len(a) != 3 or ast.unparse(a[0]) != "model_info" or not isinstance(a[1], ast.Constant) or a[1].value not in _FN or ast.unparse(a[2]) != "pars" or pars is None:
+                    raise Untranslatable("wrapper statement %s" % ast.unparse(st))
+                out.append("[(%s, %s)]" % (_FN[a[1].value], pars))
+                count[0] += 1
+            elif mentions(st):
+                raise Untranslatable("_gen_fn used in %s" % ast.unparse(st).splitlines()[0])
+        return "(" + " ++ ".join(out) + ")" if out else "[]"
+    term = block(fn[0].body, None)
+    if count[0] == 0:
+        raise Untranslatable("no wrapper statements found")
+    return term
+
+
+def gen():
+    """Regenerate Gen/C09_wrappers.v from generate.make_source."""
+    lines = ["(* GENERATED by harness/c09.py from sasmodels/generate.py (make_source: wrappers for functions given as inline strings) *)",
+             "From Coq Require Import List.", "Import ListNotations.", "From SM Require Import C09.Wrappers.", ""]
+    note = None
+    try:
+        term = _translate_wrappers()
+    except (Untranslatable, OSError, SyntaxError) as exc:
+        note = "%s: %s" % (type(exc).__name__, exc)
+        term = "wrappers inl"
+    lines.append("Definition wrappers_translated : bool := %s." % ("true" if note is None else "false"))
+    if note:
+        lines.append("(* not translated: %s *)" % note.replace("*)", "* )"))
+    lines += ["Definition code_wrappers (inl : fn -> bool) : list (fn * sig) :=", "  %s." % term, ""]
+    common.write_if_changed(os.path.join(common.THEORIES, "Gen", "C09_wrappers.v"), "\n".join(lines))
+    return note
+
+
 def main(run):
     from sasmodels import core, generate
     from sasmodels.direct_model import call_kernel, call_Fq, get_mesh
     from sasmodels.details import make_kernel_args
     rng = random.Random(run.seed * 107 + 9)
     thorough = run.tier == "thorough"
-    run.prove(["C09/Property.v"])
+    note = []
+    run.prove(["C09/Property.v"], gen=lambda: note.append(gen()))
+    run.notes.append(("the inline-string wrappers of generate.make_source not translated (%s): C09_code_wrappers is vacuous in this run" % note[0]) if note and note[0] else
+                     "which wrapper functions make_source writes for inline strings read from the current generate.py (Gen/C09_wrappers.v): a function given as an inline string gets its wrapper whatever form the other functions have (C09_code_wrappers, C09_code_wrapper_iff)")
     known = common.load_known("C09")
     pdir = run.scratch.sub("plugins")
     stats = dict(definitions=0, with_vector=0, with_shell=0, with_modes=0, with_valid=0, with_Iqxy=0, scalar_Iq=0, meshes=0, mono=0, invalid_nominal=0,
